@@ -1092,6 +1092,9 @@ func (se *stanzaEncoder) EncodeToken(t xml.Token) error {
 	switch tok := t.(type) {
 	case xml.StartElement:
 		se.depth++
+		// The attributes are filtered and extended below: work on a copy, the
+		// slice belongs to the caller.
+		tok.Attr = append(make([]xml.Attr, 0, len(tok.Attr)+2), tok.Attr...)
 		// Add required attributes if missing:
 		if se.depth == 1 && isStanzaEmptySpace(tok.Name) {
 			if tok.Name.Space == "" {
